@@ -14,15 +14,16 @@ Local Open Scope nat_scope.
 
 (* For everything the csv reader can return the loader answers Rejected (exactly for a reader error or zero
    records — e.g. empty text) or Loaded; a loaded table (header-only included) reports its dimensions without
-   panicking and every cell below them can be read. *)
-Theorem C20_total : forall cast c, csv_can_return c = true ->
+   panicking and every cell below them can be read, typed (Cell) and as text (CellString). *)
+Theorem C20_total : forall cast fmt c, csv_can_return c = true ->
   exists l, parse_csv_text_into_table cast c = Ok l /\
     match l with
     | Rejected => c = CsvError \/ c = CsvRecords []
     | Loaded t =>
       exists recs, c = CsvRecords recs /\ recs <> [] /\
         column_and_row_size t = Ok (n_cols recs, n_rows recs) /\
-        forall col row, col < n_cols recs -> row < n_rows recs -> exists v, cell t col row = Ok v
+        forall col row, col < n_cols recs -> row < n_rows recs ->
+          (exists v, cell t col row = Ok v) /\ (exists s, cell_string fmt t col row = Ok s)
     end.
 Proof. exact c20_total. Qed.
 
@@ -44,21 +45,28 @@ Proof. exact c20_header_only. Qed.
 
 (* ---- faithfulness ---- *)
 
-(* header = first record; dimensions = (header columns, data rows); the cells are exactly the cast fields,
-   one-to-one (no cell outside the dimensions). *)
-Theorem C20_faithful : forall cast recs t, loads cast recs t ->
+(* header = first record; dimensions = (header columns, data rows); the typed cells are exactly the cast fields and
+   CellString gives every field back VERBATIM (whatever it was cast to), one-to-one: nothing can be read outside
+   the dimensions. *)
+Theorem C20_faithful : forall cast fmt recs t, loads cast recs t ->
   header t = hd [] recs /\
   column_and_row_size t = Ok (n_cols recs, n_rows recs) /\
   (forall col row, col < n_cols recs -> row < n_rows recs ->
-     cell t col row = Ok (to_base cast (field recs col row))) /\
-  (forall col row, cell t col row = Panic <-> ~ (col < n_cols recs /\ row < n_rows recs)).
+     cell t col row = Ok (to_base cast (field recs col row)) /\
+     cell_string fmt t col row = Ok (field recs col row)) /\
+  (forall col row, cell t col row = Panic <-> ~ (col < n_cols recs /\ row < n_rows recs)) /\
+  (forall col row, cell_string fmt t col row = Panic <-> ~ (col < n_cols recs /\ row < n_rows recs)).
 Proof. exact c20_faithful. Qed.
 
-Theorem C20_text_preserved : forall cast fmt recs t col row, loads cast recs t ->
+Theorem C20_every_field_read_back_verbatim : forall cast fmt recs t col row, loads cast recs t ->
+  col < n_cols recs -> row < n_rows recs ->
+  cell_string fmt t col row = Ok (field recs col row).
+Proof. exact c20_verbatim. Qed.
+
+Theorem C20_text_preserved : forall cast recs t col row, loads cast recs t ->
   col < n_cols recs -> row < n_rows recs ->
   cast (field recs col row) = TText ->
-  cell t col row = Ok (VStr (field recs col row)) /\
-  cell_string fmt t col row = Ok (field recs col row).
+  cell t col row = Ok (VStr (field recs col row)).
 Proof. exact c20_text_preserved. Qed.
 
 Theorem C20_number_preserved : forall cast recs t col row x, loads cast recs t ->
@@ -67,39 +75,41 @@ Theorem C20_number_preserved : forall cast recs t col row x, loads cast recs t -
   cell t col row = Ok (VNum x) /\ cell_float64 t col row = Ok x.
 Proof. exact c20_number_preserved. Qed.
 
-(* ---- "numeric fields as numbers, all others as text" ----
-   Full statement (typed_faithfully for EVERY cell of EVERY loaded table):
-       forall cast fmt recs t, loads cast recs t ->
-         forall col row, col < n_cols recs -> row < n_rows recs -> typed_faithfully cast fmt recs t col row.
-   It is FALSE of the loader as it is: a field that strconv.ParseBool accepts and that is not a number
-   (t T TRUE true True f F FALSE false False) becomes a bool and CellString answers "" (defect D15c, listed
-   finding C20/bool-cast).  Refutation, then the proved form with the hypothesis [no_bool_field]. *)
-Theorem C20_non_numeric_as_text_refuted :
-  exists cast fmt recs t col row,
+(* ---- "numeric fields as numbers, all others as text", at the level of the TYPED cell ----
+   Since b0400cb the TEXT of every field is preserved (C20_every_field_read_back_verbatim, for all inputs).  What is
+   still false is the typed reading: Cell of a field that strconv.ParseBool accepts and that is not a number
+   (t T TRUE true True f F FALSE false False) is a bool, not the text.  Full statement (typed_faithfully for EVERY
+   cell of EVERY loaded table):
+       forall cast recs t, loads cast recs t ->
+         forall col row, col < n_cols recs -> row < n_rows recs -> typed_faithfully cast recs t col row.
+   Refutation (listed finding C20/bool-cell), then the proved form with the hypothesis [no_bool_field]. *)
+Theorem C20_non_numeric_as_text_cell_refuted :
+  exists cast recs t col row,
     cast_agrees cast /\ rectangular recs = true /\ loads cast recs t /\
     col < n_cols recs /\ row < n_rows recs /\
-    ~ typed_faithfully cast fmt recs t col row.
+    ~ typed_faithfully cast recs t col row.
 Proof. exact c20_typed_refuted. Qed.
 
-Theorem C20_non_numeric_as_text_partial : forall cast fmt recs t, loads cast recs t ->
+Theorem C20_non_numeric_as_text_cell_partial : forall cast recs t, loads cast recs t ->
   no_bool_field cast recs = true ->
-  forall col row, col < n_cols recs -> row < n_rows recs -> typed_faithfully cast fmt recs t col row.
+  forall col row, col < n_cols recs -> row < n_rows recs -> typed_faithfully cast recs t col row.
 Proof. exact c20_typed_partial. Qed.
 
 (* And what happens instead, stated positively. *)
-Theorem C20_bool_field_reads_empty : forall cast fmt recs t col row b, loads cast recs t ->
+Theorem C20_bool_field_is_bool_cell : forall cast recs t col row b, loads cast recs t ->
   col < n_cols recs -> row < n_rows recs ->
   cast (field recs col row) = TBool b ->
-  cell t col row = Ok (VBool b) /\ cell_string fmt t col row = Ok EmptyString.
-Proof. exact c20_bool_reads_empty. Qed.
+  cell t col row = Ok (VBool b).
+Proof. exact c20_bool_cell. Qed.
 
 (* ---- non-vacuity ---- *)
 Example C20_example_loaded :
   exists t, loads model_cast [["id"; "v"; "note"]; ["1"; "2.5"; "x"]; ["2"; "1E3"; "true"]]%string t /\
     no_bool_field model_cast [["id"; "v"; "note"]; ["1"; "2.5"; "x"]]%string = true /\
     column_and_row_size t = Ok (3, 2) /\
-    cell t 1 1 = Ok (VNum (Fin false 1000)) /\ cell_string model_fmt t 2 0 = Ok "x"%string /\
-    cell_string model_fmt t 2 1 = Ok ""%string.
+    cell t 1 1 = Ok (VNum (Fin false 1000)) /\ cell_string model_fmt t 1 1 = Ok "1E3"%string /\
+    cell_string model_fmt t 2 0 = Ok "x"%string /\
+    cell t 2 1 = Ok (VBool true) /\ cell_string model_fmt t 2 1 = Ok "true"%string.
 Proof.
   eexists. split; [unfold loads; vm_compute; reflexivity|].
   vm_compute. repeat split; reflexivity.
@@ -116,8 +126,9 @@ Print Assumptions C20_never_panics.
 Print Assumptions C20_panics_exactly_on_short_records.
 Print Assumptions C20_header_only.
 Print Assumptions C20_faithful.
+Print Assumptions C20_every_field_read_back_verbatim.
 Print Assumptions C20_text_preserved.
 Print Assumptions C20_number_preserved.
-Print Assumptions C20_non_numeric_as_text_refuted.
-Print Assumptions C20_non_numeric_as_text_partial.
-Print Assumptions C20_bool_field_reads_empty.
+Print Assumptions C20_non_numeric_as_text_cell_refuted.
+Print Assumptions C20_non_numeric_as_text_cell_partial.
+Print Assumptions C20_bool_field_is_bool_cell.
